@@ -29,7 +29,7 @@ BUDGET = {"quick": 90, "thorough": 900}
 
 
 def cases(rng, tier):
-    n = 120 if tier == "quick" else 1200
+    n = 360 if tier == "quick" else 2400
     for k in range(n):
         spec = tc.gen_object_spec(rng, "field", ndim=rng.choice([2, 3, 3, 4]))
         dims = tc.dims_of(spec)
